@@ -94,7 +94,10 @@ def mutations(rng, schema, base):
         p = dict(base); v = p.pop(f.name, None); p[f.name.upper()] = v
         if f.name.upper() != f.name:
             out.append(("wrong_case_key", f.kind, p, "reject"))
-    out.append(("empty_object", "-", {"k": base["k"]} if all(f.optional for f in fields) else {}, "reject" if True else "accept"))
+    if all(f.optional for f in fields):
+        out.append(("only_required_key", "-", {"k": base["k"]}, "accept"))       # every other field is optional: this payload conforms
+    else:
+        out.append(("empty_object", "-", {}, "reject"))
     rng.shuffle(out)
     return out
 
